@@ -216,6 +216,10 @@ def rewriteAndSetTypeRef {ι μ α γ : Type} [DecidableEq ι] (cmds : α → Li
 def normalizeIPTables {κ ν : Type} [DecidableEq κ] (norm : κ → ν → ν) : Footprint κ ν (κ × ν) :=
   ownKey (fun k v _ => norm k v)
 
+/-- nsx/diff.go `genUniqGroupNames`: `for id := range a { used[id] = true }`. -/
+def copyKeys {κ ν : Type} [DecidableEq κ] : Footprint κ Bool (κ × ν) :=
+  ownKey (fun _ _ _ => true)
+
 /-- A non-empty string of at most nine decimal digits: `strconv.Atoi` succeeds, result ≥ 0. -/
 def isNumeral (s : String) : Bool :=
   !s.toList.isEmpty && s.toList.all Char.isDigit && decide (s.toList.length ≤ 9)
@@ -324,6 +328,32 @@ def infoLogUnfixed {κ ρ : Type} (es : Entries κ (Option ρ)) : List ρ := log
 def infoLogFixed {κ ρ : Type} (le : κ → κ → Bool) (es : Entries κ (Option ρ)) : List ρ :=
   logInSorted le Prod.snd es
 
+/-! ## Whole runs: a sequence of loops under an arbitrary schedule -/
+
+/-- One `range` over a map executed in state `s`: `entries s` are the map's entries (in some
+canonical order), `body s l` runs the loop visiting them in the order `l`; `inv` is what the
+site theorems establish: the result does not depend on the order. -/
+structure Stage (σ ε : Type) where
+  entries : σ → List ε
+  body : σ → List ε → σ
+  inv : ∀ s l, l.Perm (entries s) → body s l = body s (entries s)
+
+/-- A schedule (the Go runtime's choice): for the `i`-th loop executed, in state `s`, the order in
+which the entries are visited. -/
+abbrev Schedule (σ ε : Type) := Nat → σ → List ε → List ε
+
+def Schedule.Valid {σ ε : Type} (sch : Schedule σ ε) : Prop := ∀ i s l, (sch i s l).Perm l
+
+/-- A run: `next s` is the loop the program executes next in state `s` (everything between two
+loops is deterministic and folded into the bodies), `none` = finished; at most `fuel` loops. -/
+def execRun {σ ε : Type} (next : σ → Option (Stage σ ε)) (sch : Schedule σ ε) :
+    Nat → Nat → σ → σ
+  | 0, _, s => s
+  | fuel + 1, i, s =>
+    match next s with
+    | none => s
+    | some st => execRun next sch fuel (i + 1) (st.body s (sch i s (st.entries s)))
+
 /-! ## The table of expectations -/
 
 /-- Which theorem of `NA.Props.C16` covers a site. -/
@@ -370,6 +400,7 @@ def expected : List Expect := [
   ⟨"cisco/parse.go", "postprocessParsed", "lookup[\"crypto ca certificate map\"]", 0, "e7303b37b46ec64b", "effects", .perObject, "site_rewriteCommands"⟩,
   ⟨"cisco/parse.go", "postprocessParsed", "lookup[\"tunnel-group\"]", 0, "5e788ebeab593e3c", "effects", .perObject, "site_rewriteCommands"⟩,
   ⟨"linux/parse.go", "normalizeIPTables", "pairs", 0, "647b114a2d7c7eaf", "own-key-write", .ownKey, "site_normalizeIPTables"⟩,
+  ⟨"nsx/diff.go", "genUniqGroupNames", "a", 0, "b68557b2bac816d8", "own-key-write", .ownKey, "site_copyKeys"⟩,
   ⟨"program/config.go", "LoadConfig", "defaultVals", 0, "f61e5c2bc47f3a5e", "early-exit", .exitOrOwnKey, "site_loadDefaults"⟩
 ]
 
